@@ -19,7 +19,8 @@ PARTIALS = {"p": "[{{ p }}{{ x }}]", "q": "{% if q %}Q{% endif %}{{ y.a }}"}
 
 # uses of a missing variable that StrictUndefined must reject: (class, template)
 # kinds of missing path; the first is the reference kind (a plain missing root)
-MISSING = ["m", "d.m", "d['m']", "lst[9]", "d.a.b", "d[m]", "d[d.m]", "lst[m]", "d[m].x", "d.a[m]", "lst[-9]", "d[nokey]"]
+MISSING = ["m", "d.m", "d['m']", "lst[9]", "d.a.b", "d[m]", "d[d.m]", "lst[m]", "d[m].x", "d.a[m]", "lst[-9]", "d[nokey]",
+           "nn.x", "d.n.x", "d['n'][0]", "d.n.x.y", "lst[2].a", "x.y", "d.x.y"]  # (through a key that holds nil, or a number)
 TARGETED = [
     ("output", "{{ «m» }}"), ("output", "{% echo «m» %}"), ("output", "{% assign v = «m» %}{{ v }}"),
     ("iterate", "{% for i in «m» %}x{% endfor %}"), ("iterate", "{% tablerow i in «m» %}x{% endtablerow %}"),
@@ -34,9 +35,24 @@ TARGETED = [
         "ceil", "floor", "round", "at_least: 1", "modulo: 2", "date: '%Y'", "slice: 0", "strip_html", "url_encode",
         "base64_encode", "sum", "compact", "json",
     ]],
+    # positions where a strict type may or may not raise, but where a render that succeeds must agree with the default type
+    ("free:nil", "{% if «m» == nil %}t{% else %}f{% endif %}"), ("free:nil", "{% if nil == «m» %}t{% else %}f{% endif %}"),
+    ("free:nil", "{% if «m» != nil %}t{% else %}f{% endif %}"), ("free:nil", "{% if «m» == null %}t{% else %}f{% endif %}"),
+    ("free:nil", "{% if «m» == nn %}t{% else %}f{% endif %}"), ("free:nil", "{% case «m» %}{% when nil %}t{% else %}f{% endcase %}"),
+    ("free:nil", "{% case nil %}{% when «m» %}t{% else %}f{% endcase %}"), ("free:nil", "{% if «m» <> nil %}t{% else %}f{% endif %}"),
+    ("free:special", "{% if «m» == empty %}t{% else %}f{% endif %}"), ("free:special", "{% if «m» == blank %}t{% else %}f{% endif %}"),
+    ("free:special", "{% if «m» == false %}t{% else %}f{% endif %}"), ("free:special", "{% if false == «m» %}t{% else %}f{% endif %}"),
+    ("free:special", "{% if «m» == «m» %}t{% else %}f{% endif %}"), ("free:special", "{% if «m» == nosuch %}t{% else %}f{% endif %}"),
+    ("free:truthy", "{% if «m» %}t{% else %}f{% endif %}"), ("free:truthy", "{% unless «m» %}t{% else %}f{% endunless %}"),
+    ("free:truthy", "{% if «m» and x %}t{% else %}f{% endif %}"), ("free:truthy", "{% if «m» or x %}t{% else %}f{% endif %}"),
+    ("free:truthy", "{% if x and «m» %}t{% else %}f{% endif %}"), ("free:truthy", "{% if not «m» %}t{% else %}f{% endif %}"),
+    ("free:truthy", "{{ 'a' if «m» else 'b' }}"), ("free:truthy", "{{ «m» | default: 'D' }}"), ("free:truthy", "{{ «m» | default: 'D', allow_false: true }}"),
+    ("free:truthy", "{% if lst contains «m» %}t{% else %}f{% endif %}"), ("free:truthy", "{% assign v = «m» %}{% if v %}t{% else %}f{% endif %}"),
+    ("free:truthy", "{% include 'q', q: «m» %}"), ("free:truthy", "{% render 'q', q: «m» %}"), ("free:truthy", "{% with q: «m» %}{% if q == nil %}t{% endif %}{% endwith %}"),
     ("filter-arg", "{{ 'a' | append: «m» }}"), ("filter-arg", "{{ lst | join: «m» }}"), ("filter-arg", "{{ 1 | plus: «m» }}"),
 ]
-BASE = {"d": {"a": {}, "x": 1}, "lst": [1, 2], "x": 1}
+BASE = {"d": {"a": {}, "x": 1, "n": None}, "lst": [1, 2, None], "x": 1, "nn": None}
+FLAGS = {"logical_not_operator": True, "logical_parentheses": True, "ternary_expressions": True}
 
 
 def _cfg(case, undefined: str) -> dict:
@@ -50,13 +66,19 @@ def evaluate(case) -> Verdict:
     if case["kind"] == "targeted":
         cls, shape = TARGETED[case["i"]]
         src = shape.replace("«m»", case["m"])
-        cfg = {"extra": True, "twice": False}
+        cfg = {"extra": True, "twice": False, "flags": FLAGS}
         env = envs.make_env(_cfg({"cfg": cfg}, "strict"), PARTIALS)
         o = oc.outcome_of(lambda: env.from_string(src).render(**BASE))
-        if not (o[0] == "liquid" and o[1] == "UndefinedError"):
+        if not cls.startswith("free:") and not (o[0] == "liquid" and o[1] == "UndefinedError"):
             v.fail(f"strict-accepts:{cls}", f"{src!r} with StrictUndefined -> {oc.short(o)!r:.200}, expected UndefinedError")
         envd = envs.make_env(_cfg({"cfg": cfg}, "default"), PARTIALS)
         od = oc.outcome_of(lambda: envd.from_string(src).render(**BASE))
+        # first clause of the property at this position: a strict type that lets the render succeed agrees with the default type
+        for ut in STRICT_TYPES:
+            envu = envs.make_env(_cfg({"cfg": cfg}, ut), PARTIALS)
+            ou = oc.outcome_of(lambda: envu.from_string(src).render(**BASE))  # noqa: B023
+            if ou[0] == "ok" and (od[0] != "ok" or ou[1] != od[1]):
+                v.fail(f"output-differs:{ut}:{cls.split(':')[0]}", f"{src!r}: {ut} -> {oc.short(ou)!r:.120} but default -> {oc.short(od)!r:.120}")
         if od[0] == "liquid" and od[1] == "UndefinedError":
             v.fail(f"default-raises:{cls}", f"{src!r} with the default Undefined raised UndefinedError")
         # however the path came to be missing, the default type yields the same undefined value: the outcome
